@@ -2,7 +2,7 @@
    Model: Proto/Model.v (hand-written, tied by correspondence) over the MACHINE-TRANSLATED wire
    primitives of Generated/ProtoGen.v. [Ok] results mean: no slice bound of the Go code is violated
    (the model returns [Panic] for any violated bound). *)
-From Verif Require Import Base.GoInt Proto.Ext Generated.ProtoGen Proto.Model Proto.PrimSpec Proto.Spec Proto.EncProofs.
+From Verif Require Import Base.GoInt Proto.Ext Generated.ProtoGen Proto.Model Proto.PrimSpec Proto.Spec Proto.EncProofs Proto.EncCorollaries.
 
 (* for every codec position and flag word: encode writes exactly size_of bytes into any buffer that is
    large enough, leaving the rest untouched, and reports io.ErrShortBuffer -- never a panic, never a
@@ -17,3 +17,19 @@ Proof. exact EncProofs.marshal_to_fits. Qed.
 (* every shorter b, every length from 0 to Size(v)-1: an ErrShortBuffer error, no panic, the buffer keeps its length *)
 Theorem marshal_to_short : marshal_to_short_statement.
 Proof. exact EncProofs.marshal_to_short. Qed.
+
+(* len(b) = Size(v) exactly: the buffer becomes Marshal(v), nothing is left over and nothing is missing *)
+Theorem marshal_to_exact_fit : marshal_to_exact_fit_statement.
+Proof. exact EncCorollaries.marshal_to_exact_fit. Qed.
+
+(* the bytes written do not depend on what the buffer held; what lies beyond Size(v) is kept, for any two buffers *)
+Theorem marshal_to_oblivious : marshal_to_oblivious_statement.
+Proof. exact EncCorollaries.marshal_to_oblivious. Qed.
+
+(* the buffer handed back always has the length of the buffer passed in (success and ErrShortBuffer alike) *)
+Theorem marshal_to_keeps_length : marshal_to_keeps_length_statement.
+Proof. exact EncCorollaries.marshal_to_keeps_length. Qed.
+
+(* MarshalTo succeeds exactly when Size(v) <= len(b): the threshold is neither one more nor one less *)
+Theorem marshal_to_threshold : marshal_to_threshold_statement.
+Proof. exact EncCorollaries.marshal_to_threshold. Qed.
